@@ -29,7 +29,8 @@ def cases(draw, tier):
     return dict(nl=nl, lanes=lanes, waves=waves, pre=pre, dpool=draw(W.DELAY_POOL), caps=draw(W.CAPS), f64=draw(st.booleans()),
                 strip_forks=draw(st.booleans()), pol_indep=draw(st.booleans()), c_reuse=draw(st.sampled_from([False, False, True])),
                 shift=draw(st.integers(-4096, 8192)), scale=draw(st.integers(-6, 6)), cuda=draw(st.sampled_from([False, False, False, True])),
-                nds=draw(st.sampled_from([1, 1, 2, 3])), gsel=draw(st.integers(0, 2)), mix=draw(st.sampled_from([0, 0, 1, 2, 3, 5, 6])))
+                nds=draw(st.sampled_from([1, 1, 2, 3])), gsel=draw(st.integers(0, 2)), mix=draw(st.sampled_from([0, 0, 1, 2, 3, 5, 6])),
+                zf=draw(st.booleans()))
 
 
 def run(case, b, scale=1.0, shift=0.0):
@@ -39,6 +40,10 @@ def run(case, b, scale=1.0, shift=0.0):
     g = case.get('gsel', 0) % nds
     delays = W.delays_for(nlines, case['dpool'], dtype='float64' if case['f64'] else 'float32',
                           polarity_independent=case['pol_indep'], scale=scale, datasets=nds)
+    if case.get('zf'):                  # ideal forks: no delay on any line that ends at a fork (the usual set-up with strip_forks)
+        for l in b.c.lines:
+            if l.reader.kind == '__fork__':
+                delays[:, l.index] = 0
     klass = WaveSimCuda if case.get('cuda') else WaveSim
     sim = klass(b.c, delays, sims=case['lanes'], c_caps=W.caps_for(nlines, case['caps']), c_reuse=bool(case.get('c_reuse')),
                 strip_forks=case['strip_forks'])
@@ -73,7 +78,7 @@ def sta(b, nl, delays, waves, lane, strip_forks):
         if k is not None:
             ts = waves[k][lane]['t']
             r = (min(ts) / W.GRID, max(ts) / W.GRID) if ts else None
-        elif drv.kind == '__fork__' and strip_forks:
+        elif drv.kind == '__fork__' and strip_forks and len(drv.ins) > 0 and drv.ins[0] is not None:
             r = win(drv.ins[0])
         else:
             E = L = None
@@ -176,6 +181,7 @@ def prop(case):
     if multi_switch: labels.append('gate_with>=2_switching_operands')
     if case['pol_indep']: labels.append('polarity_independent')
     if case['strip_forks']: labels.append('strip_forks')
+    if case.get('zf'): labels.append('ideal_forks')
     if case.get('pre'): labels.append('simulator_reused')
     if reuse: labels.append('c_reuse_captured_rows')
     if case.get('cuda'): labels.append('cuda_path')
